@@ -269,12 +269,13 @@ func (d *driver) create(name string) (*component_definition.Meta, error) {
 		defer func() { d.stack = d.stack[:len(d.stack)-1] }()
 		meta := d.metaFor(name)
 		early := meta
+		var fac container.SingletonFactory
 		if d.rng.Intn(4) > 0 {
 			failEarly := d.rng.Intn(8) == 0
 			failOnce := d.rng.Intn(6) == 0 // a transient fault: the first request fails, the factory is asked again later
 			wrapEarly := d.rng.Intn(5) == 0
 			d.log("addfactory(%s fail=%v failOnce=%v wrap=%v)", name, failEarly, failOnce, wrapEarly)
-			d.reg.AddSingletonFactory(name, container.FuncSingletonFactory(func() (*component_definition.Meta, error) {
+			fac = container.FuncSingletonFactory(func() (*component_definition.Meta, error) {
 				if failEarly {
 					return nil, errors.New("early factory failed")
 				}
@@ -286,7 +287,8 @@ func (d *driver) create(name string) (*component_definition.Meta, error) {
 					early = d.metaFor(name)
 				}
 				return early, nil
-			}))
+			})
+			d.reg.AddSingletonFactory(name, fac)
 			d.hasFac[name] = true
 		}
 		k := d.rng.Intn(5)
@@ -295,7 +297,14 @@ func (d *driver) create(name string) (*component_definition.Meta, error) {
 		}
 		for i := 0; i < k && d.ops < d.maxOps; i++ {
 			d.ops++
-			switch d.rng.Intn(6) {
+			switch d.rng.Intn(7) {
+			case 6:
+				// the factory registers its early-reference factory once more (a second code path that "makes sure" it
+				// is registered): whatever was handed out before stays what every lookup observes
+				if fac != nil {
+					d.log("addfactory-again(%s)", name)
+					d.reg.AddSingletonFactory(name, fac)
+				}
 			case 0, 1: // nested get-or-create
 				other := d.names[d.rng.Intn(len(d.names))]
 				d.log("doGet(%s)", other)
